@@ -34,11 +34,12 @@ def _wire(self, command, kind):
     lock = self.transaction_lock
     cur["calls"].append((kind, command, lock.held))
     w.cancel_point("send_raw")
-    c = sym.ctx()
-    if c.fork(c.fresh_bool("gateway_fails").e):
+    if w.choice("gateway_fails"):
         cur["failures"] = cur.get("failures", 0) + 1
         if cur["failures"] > 2:
             raise PathEnd()         # a gateway that fails for ever: the retry loop never ends (liveness)
+        if w.native:
+            raise CommunicationError()
         throw(CommunicationError)
     rc = command.response if kind == "cmd" else None
     if rc is None:
@@ -80,10 +81,16 @@ class SeqModel:
         self.n += 1
         k = ctx.choose_int(ctx.fresh_int("seq_step", 0, 5 if self.n <= 3 else 1), "sequence step")
         if k == 0:
-            raise RaiseEx(StopIteration(ctx.fresh_int("seq_result", 0, 255)))
+            v = ctx.fresh_int("seq_result", 0, 255)
+            if getattr(ctx, "native", False):
+                raise StopIteration(v)
+            raise RaiseEx(StopIteration(v))
         if k == 1:
             self.raised = "sequence-error"
-            raise RaiseEx(SObj(S.DALISequenceError if hasattr(S, "DALISequenceError") else Exception, {"args": ()}))
+            ecls = S.DALISequenceError if hasattr(S, "DALISequenceError") else Exception
+            if getattr(ctx, "native", False):
+                raise ecls()
+            raise RaiseEx(SObj(ecls, {"args": ()}))
         if k == 2:
             x = new_object(S.sleep, delay=ctx.fresh_int("delay", 0, 5))
         elif k == 3:
@@ -126,6 +133,16 @@ def check_discipline(ctx, lock, held_before, label=""):
     cur["stray"] = stray
 
 
+def new_world(ctx, interp):
+    world = World(ctx, interp, cancel=True)
+    install(interp, world)
+    cur.clear()
+    cur.update(world=world, calls=[])
+    # native replay: the gateway-level sends are replaced by the same assumed contracts
+    world.native_contracts = {RAW_KEYS[0]: send_raw_contract, RAW_KEYS[1]: power_supply_contract, SER_SEND: serial_send_contract}
+    return world
+
+
 def units(tier):
     CF.WMAX = 64
     U = []
@@ -144,12 +161,7 @@ def units(tier):
     for in_tx in (False, True):
         for exc in (True, False):
             def r_send(ctx, interp, fn, in_tx=in_tx, exc=exc):
-                if ctx.native:
-                    return
-                world = World(ctx, interp, cancel=True)
-                install(interp, world)
-                cur.clear()
-                cur.update(world=world, calls=[])
+                world = new_world(ctx, interp)
                 drv, lock = mk_hid(ctx, world, held=in_tx)
                 dt = ctx.int("devicetype", 0, 255)
                 cmd, _ = abstract_command(ctx, 16, False, C.NumericResponse, devicetype=dt)
@@ -169,12 +181,7 @@ def units(tier):
             unit("hid.send/in_transaction=%s/exceptions=%s" % (in_tx, exc), r_send)
 
     def r_power(ctx, interp, fn):
-        if ctx.native:
-            return
-        world = World(ctx, interp, cancel=True)
-        install(interp, world)
-        cur.clear()
-        cur.update(world=world, calls=[])
+        world = new_world(ctx, interp)
         drv, lock = mk_hid(ctx, world)
         out = world.run(HID.hid.power_supply, drv, ctx.bool("on"))
         if out[0] == "blocked":
@@ -184,12 +191,7 @@ def units(tier):
     unit("hid.power_supply", r_power)
 
     def r_seq(ctx, interp, fn):
-        if ctx.native:
-            return
-        world = World(ctx, interp, cancel=True)
-        install(interp, world)
-        cur.clear()
-        cur.update(world=world, calls=[])
+        world = new_world(ctx, interp)
         drv, lock = mk_hid(ctx, world)
         seq = SeqModel(ctx)
         out = world.run(HID.hid.run_sequence, drv, seq)
@@ -208,12 +210,7 @@ def units(tier):
 
     # serial base class: run_sequence over send(in_transaction=True)
     def r_sseq(ctx, interp, fn):
-        if ctx.native:
-            return
-        world = World(ctx, interp, cancel=True)
-        install(interp, world)
-        cur.clear()
-        cur.update(world=world, calls=[])
+        world = new_world(ctx, interp)
         lock = world.lock("transaction")
         drv = ctx.new(SER.DriverLubaRs232, transaction_lock=lock, _connected=world.event(True, "connected"))
         seq = SeqModel(ctx)
@@ -227,6 +224,9 @@ def units(tier):
     unit("serial.run_sequence", r_sseq, use=USE0 + [SER_SEND])
     return U
 
+
+# checks whose proof units establish the callee contracts applied here (re-verified by this check, see main.dependency_units)
+DEPENDENCIES = ['C04', 'C05']
 
 META = {
     "level": "proof",
